@@ -26,6 +26,11 @@ CHECKS = {
    "Kernels: filter (+optimized, sliced predicate), take (4 index types, nulls with out-of-range payload, duplicates, check_bounds), nullif, zip, slice, shift, concat, interleave, dictionary gc and the record-batch forms, for 62 types x all columns (len <= 3) x all layouts (<= 1 deviation) x every mask in {T,F,null}^n / every index vector of length <= 2 / every interleave list of length <= 2; structured filter families crossing the 0.8-selectivity, len/16 and 64-bit-word thresholds up to 1025 rows. Coalescer: BFS to depth 4 (6 thorough) over 32 operations for 5 schemas x target sizes {1,2,3,5} x bypass limit {None,2,4}; every transition runs on the real coalescer and is compared with the model (buffered rows, completed queue, emitted batches, exact batch sizes, final drain).",
    "Trusted: the ten-line reference implementations on Vec<Val>. Union columns are excluded from null-index / shift / nullif (no validity of their own). With a bypass limit only the row sequence is checked, as the property states.",
    "DESIGN.md section 4, C03"),
+ "C04": ("vk-ipc", "model_checking",
+   "explicit-state BFS over per-batch dictionary evolution histories for every writer x handling mode against a DictionaryTracker model, plus bounded exhaustive enumeration of (type, column, layout, option point, batch sequence, projection) round trips through every IPC and Flight writer/reader pair",
+   "78 (125) types x nullable/non-nullable x every column of length <= 3 (4) x 22 physical layouts (sliced(p,q) for p in {1,3,8,9,63,64,65}, garbage under nulls, non-zero first offset, unused trailing values, sliced children) through FileWriter / StreamWriter / StreamEncoder / IpcDataGenerator -> FileReader (+projection) / FileDecoder / StreamReader / StreamDecoder, and FlightDataEncoder / batches_to_flight_data -> FlightRecordBatchStream / FlightDataDecoder / flight_data_to_batches; every option point within 2 (3) deviations (alignment, metadata version, compression, dictionary handling, Flight message size and dictionary handling); batch sequences of <= 3 batches incl. empty and zero-column batches, every projection, schema/field/custom metadata. Dictionary histories: BFS over 7 per-batch actions per dictionary field in 77 configurations; a writer error is accepted only where documented and is then required. Oracle: schema equality and batch-by-batch logical equality (hydrated / concatenated for Flight), validate_full on everything decoded.",
+   "Trusted: the engine's own logical extraction. The tonic transport is not driven (encoder/decoder run as in-process streams).",
+   "DESIGN.md section 4, C04; engine/vk-ipc/STATUS.md"),
  "C06": ("vk-pqread", "exploration",
    "bounded exhaustive enumeration of reader option points (deviation-bounded product with a fully multiplied selection x offset x limit core) over generated Parquet files against a reference computed on rows; exhaustive RowSelection algebra against sets of positions",
    "36 in-memory files (6 schemas incl. nested x 6 physical layouts: 1/3 unequal row groups, 1-3 rows per page, offset index on/off, dictionary on/off, v1/v2 pages; unique row ids) read under every configuration within 2 deviations of default (projection subsets, row-group lists incl. non-ascending, batch size, selection policy, page index, 9 predicate chains incl. predicate-only columns and null results, cache size 0) crossed with all 2^T row selections x 5 presentations x 6 offsets x 5 limits (reduced at 2 deviations); result rows, schema, batch bounds and validate_full compared with row-group choice -> selection -> predicates -> offset -> limit -> projection on Vec<row>. Algebra: all 127 selections over length <= 6 x 6 presentations, all ordered pairs: and_then, intersection, union, split_off(k), from_filters, from_consecutive_ranges, counts, iter, ==, scan_ranges against every page layout of <= 4 pages.",
@@ -41,6 +46,26 @@ CHECKS = {
    "For 62 types x all columns (len <= 2) x layouts (<= 1 deviation): every mutilation of a type-agnostic menu (len/offset +-1 and overflowing, buffer dropped/added/truncated by a byte or an element/misaligned, validity short/forbidden/wrong null_count, child dropped/added/retyped/shortened/lengthened, every cell of every offsets/sizes/keys/type-id/view/value buffer of the array and its children overwritten by each of 8 replacement values) is fed to ArrayData::try_new, ArrayDataBuilder::build (with and without align_buffers) and new_unchecked+validate_full; whatever is accepted must pass vmodel::spec_validate; RecordBatch::try_new(_with_options) trials.",
    "Trusted: vmodel::spec_validate (it is never stricter than arrow-rs documents: arbitrary payload under nulls for dictionary keys, empty offsets for empty arrays). Only single mutilations; typed try_new constructors and the C Data Interface import path are not driven yet.",
    "DESIGN.md section 4, C09"),
+ "C12": ("vk-arith", "exploration",
+   "exhaustive enumeration of all 8-bit operand pairs (and 16-bit values against a boundary set; full 16x16 in thorough), boundary lattices for wider integers / decimals / i256 / temporal types, all null patterns and aggregate lengths around lane sizes, all Kleene inputs, against an exact big-integer reference",
+   "All 65,536 operand pairs for Int8/UInt8 x {add, sub, mul, div, rem, wrapping forms, neg, bitwise, shifts} x {array-array, array-scalar, scalar-array}; all 16-bit values x a 40-value boundary set both ways (thorough: the full 16x16 square for add/sub/mul, 45.5 G evaluations); boundary lattice BxB for 32/64-bit ints, Decimal32/64/128/256 over a precision/scale grid incl. negative and extreme scales, i256 and interval types directly, timestamp/date/duration/interval arithmetic against an own Gregorian model; null patterns {valid,null}^n with overflow-provoking garbage under nulls, sliced inputs; aggregates for every length in {0,1,7,8,9,63,64,65,127,128,129,257} with a poison value at every position of the first and last lane group; Kleene and/or/not on all {T,F,N}^n pairs at bit offsets 0..=9. Every pair's outcome is individually determined (packed Ok calls plus one-row calls).",
+   "Trusted: num-bigint as exact integer arithmetic and the documented result precision/scale formulas for decimals. Where documentation does not decide Ok vs Err the case is classified undocumented-domain and only the value of a successful call is checked.",
+   "DESIGN.md section 4, C12; engine/vk-arith/STATUS.md"),
+ "C14": ("vk-stream", "model_checking",
+   "exhaustive enumeration of chunkings (all 2^(n-1) partitions of short inputs; all single, pair and boundary-subset cuts of longer ones), flush placements and delivery policies of the real incremental decoders, every trace compared with the single-chunk run and the one-shot reader",
+   "Nine decoder families (CSV decoder and reader, JSON decoder and reader, IPC StreamDecoder, Avro Decoder, Avro OCF reader, Parquet metadata push decoder, Flight data decoder), each driven by its documented protocol: inputs of <= 14-15 (16-20) bytes under all partitions, longer inputs under every single cut, every pair (triple), every uniform chunk size and all subsets of token/message-boundary cuts; empty chunks and flush placements where allowed; batch sizes {1,2,3,1024}; every single-byte corruption of the two shortest corpus entries per family (error outcomes compared too); Parquet ranges under 10 delivery policies and prefetched suffixes; Flight streams with Pending before every subset of messages. 5.9 M traces / 258 k decoder-observable states in quick.",
+   "Trusted: the single-chunk run as the reference (tied to the one-shot reader on the valid corpus). Corrupted Avro OCF inputs that make the library spin are screened out in a watchdog subprocess and listed in the evidence.",
+   "DESIGN.md section 4, C14; engine/vk-stream/STATUS.md"),
+ "C17": ("vk-text", "exploration",
+   "bounded exhaustive enumeration of (schema, column, option point) round trips for CSV, JSON and Avro with independent decoders of the written bytes and independent encoders (grammar enumeration) as second opinions",
+   "Round trip read(write(batch)) == batch for 36 CSV column types, 43 scalar + 19 nested JSON types, 48 Avro columns x all columns of <= 2 (3) rows over metacharacter-rich alphabets (every string of <= 2 characters over 15-20 characters incl. delimiters, quotes, CR/LF, controls, non-BMP; 64-bit extremes; hard shortest-round-trip floats; decimal precision limits; epoch/year-boundary timestamps) x every option point within 2 (3) deviations of default (17 CSV, 11 JSON, 8 Avro dimensions incl. every codec and framing), only where the text is unambiguous by construction. Independent decoders: an own RFC 4180 state machine and per-type text decoders; an own strict RFC 8259 parser cross-checked with serde_json on every document; apache-avro 0.22. Independent encoders: every JSON document of four grammars (numbers <= 5 (6) chars, strings of <= 3 tokens of 41, whitespace placements, structures of <= 5 (6) tokens) and RFC 4180 texts from a grammar must be read with the same values; apache-avro-written bytes must decode identically. 12 M evaluations quick, 116 M thorough.",
+   "Trusted: serde_json (float_roundtrip) + own parser agreement, apache-avro 0.22, the own RFC 4180 splitter. The reject direction for JSON is observed only (arrow-json documents no strictness).",
+   "DESIGN.md section 4, C17; engine/vk-text/STATUS.md"),
+ "C18": ("vk-stream", "fault_enumeration",
+   "exhaustive single-fault (thorough: pairs) injection at every sink/source call index of 17 writer scripts and 9 readers, and every truncation length of every produced file",
+   "Writers: IPC file/stream (plain, buffered, LZ4, ZSTD), Parquet ArrowWriter / SerializedFileWriter / AsyncArrowWriter, Avro OCF and single-object, CSV, JSON lines/array; a fault-free run learns the call count n, then one run per (k < n, fault in {Other, BrokenPipe, Interrupted, Ok(0), short 1, short half}, once or persistent, stop or keep going), at three sink granularities. Oracle: no panic / bounded steps; finish Ok implies the accepted bytes equal the fault-free output; accepted bytes are always a prefix. Readers under read/seek faults: Err or the fault-free result. Truncation: every prefix of every produced file with every reader of the format: footer formats rejected, self-delimiting formats yield a prefix of the rows.",
+   "Trusted: the fault-free output as the byte reference (Avro OCF sync marker masked). No subprocess watchdog: hangs are guarded by in-process step counters.",
+   "DESIGN.md section 4, C18; engine/vk-stream/STATUS.md"),
  "C13": ("vk-cast", "exploration",
    "bounded exhaustive enumeration of the ordered-pair cast matrix over a type grid x small columns x layouts, exhaustive 8/16-bit and Float16 sources, every calendar day 0001-9999, and a DataType grammar, against documented-semantics references and relational oracles",
    "Complete ordered-pair product of a 92-type grid (8464 pairs, 5136 accepted by can_cast_types): O1 can_cast_types implies no unsupported-class error on the empty and all-null column; O2 strict/safe duality row-wise on every column of length <= 2 (3) over the full alphabet and <= 3 (5) over core letters x {compact, sliced, garbage-under-nulls}; O3 exact references only where a documentation sentence pins the value (each family cites it); O4 inverse identities on 648 lossless pairs; exhaustive sources: all values of Int8/UInt8/Int16/UInt16 and all Float16 bit patterns to every castable target in both modes; text: every Date32 day of years 0001-9999 and timestamp lattices in 4 zones through format and parse, every FormatOptions field one deviation from default; DataType Display->FromStr over a depth-2 grammar (12k / 20k types).",
